@@ -4,9 +4,10 @@ Lazily built module state (tables filled on first use, memo dicts, singletons) i
 once per process, so an in-process harness that has already called the library can never see it.  This runner is
 started as a subprocess per case:
 
-    python -m vlib.coldrun   < {"repo": path, "threads": [[[module, function, [args...]], ...], ...], "plan": [[t, n], ...]}
+    python -m vlib.coldrun   < {"repo": path, "threads": [[[module, function, [args...], then?], ...], ...], "plan": [[t, n], ...]}
 
-args are JSON values; {"hex": "..."} stands for bytes.  Each call's outcome is printed as JSON:
+args are JSON values; {"hex": "..."} stands for bytes.  `function` may be dotted (Class.method).  The optional `then` is a
+list of [attribute, [args...]] steps applied to the result in turn (attribute fetched, called when callable).  Each call's outcome is printed as JSON:
 ["ok", value] (bytes as {"hex": ...}, tuples as lists, other objects via str()) or ["exc", repr].
 The threads run under the deterministic scheduler (vlib/sched.py), so the schedule is part of the case.
 """
@@ -50,19 +51,26 @@ def main():
     files = [os.path.join(base, f) for f in os.listdir(base) if f.endswith(".py")]
     mods = {}
     for th in spec["threads"]:
-        for m, _f, _a in th:
+        for call_ in th:
+            m = call_[0]
             if m not in mods:
                 mods[m] = importlib.import_module("btc_hd_wallet." + m)      # importing is not calling
 
     def runner(calls):
         def run():
             out = []
-            for m, f, a in calls:
+            for call_ in calls:
+                m, f, a = call_[0], call_[1], call_[2]
                 try:
                     obj = mods[m]
                     for part in f.split("."):
                         obj = getattr(obj, part)
-                    out.append(["ok", _enc(obj(*_dec(a)))])
+                    val = obj(*_dec(a))
+                    for name, args in (call_[3] if len(call_) > 3 else []):
+                        val = getattr(val, name)
+                        if callable(val):
+                            val = val(*_dec(args))
+                    out.append(["ok", _enc(val)])
                 except Exception as e:  # noqa: BLE001
                     out.append(["exc", repr(e)[:300]])
             return out
